@@ -9,6 +9,7 @@ import (
 	"regexp"
 	"strings"
 
+	"github.com/llir/llvm/asm"
 	"github.com/llir/llvm/ir/constant"
 	"github.com/llir/llvm/ir/types"
 	"github.com/mewmew/float/binary16"
@@ -319,6 +320,13 @@ func runC10(c *config) {
 		rp := readReplay(c.replay)
 		lit, _ := rp.Detail["literal"].(string)
 		kind, _ := rp.Detail["kind"].(string)
+		if src, ok := rp.Detail["src"].(string); ok {
+			m, err := asm.ParseString("replay.ll", src)
+			fmt.Println("module:", src, "error:", err)
+			if err == nil {
+				fmt.Println("printed:", m.String())
+			}
+		}
 		for _, k := range c10Kinds {
 			if k.typ.String() == kind {
 				c1, oc, msg := c10Parse(k, lit)
@@ -584,6 +592,8 @@ func runC10(c *config) {
 			}
 		}
 	}
+	// the same through the parser: literals in the text of a module (c10asm.go)
+	c10AsmRoute(c, newRng(c.seed, "c10asm"))
 	o.Sample(map[string]interface{}{"kind": "half", "literal": "0xH3C00", "printed": func() string { c1, _, _ := c10Parse(c10Kinds[0], "0xH3C00"); s, _ := c10Ident(c1); return s }()})
 	o.Sample(map[string]interface{}{"kind": "x86_fp80", "literal": "0xK3FFF8000000000000000", "printed": func() string {
 		c1, _, _ := c10Parse(c10Kinds[3], "0xK3FFF8000000000000000")
